@@ -860,9 +860,9 @@ func init() {
 			"known-finding matcher: a listing may contain extra entries only if each of them was really put under another (epoch, id) tuple whose raw storage key starts with the queried raw prefix; missing entries, never-stored entries, wrong clean-up boundaries and unauthorised puts stay violations"},
 		Batches: func(t string) int {
 			if t == "thorough" {
-				return 512
+				return 1024
 			}
-			return 48
+			return 144
 		},
 		Chunk: 4,
 		Floors: []string{"reputation.put", "audit.put", "audit.put-refused-non-member", "estimation.put", "estimation-refused-node-outside-previous-map", "estimation-node-cleanup-fired", "estimation-node-cleanup-boundary-kept",
